@@ -250,6 +250,9 @@ func checkFault(c FaultCase) error {
 		evid.Class("timeout_inconclusive", 1)
 		return nil
 	}
+	if ref.Exit != 0 {
+		return fmt.Errorf("%s: the pristine (uncorrupted, uncompressed) input itself is refused with exit %d: %s", what, ref.Exit, tail(ref.Stderr))
+	}
 	if res.Exit != ref.Exit || !bytes.Equal(res.Stdout, ref.Stdout) {
 		return fmt.Errorf("%s: the codec decodes the original bytes, yet exit %d / %d output bytes differ from the pristine run (exit %d / %d bytes); stderr: %s", what, res.Exit, len(res.Stdout), ref.Exit, len(ref.Stdout), tail(res.Stderr))
 	}
